@@ -406,7 +406,7 @@ def c02(run, args):
         raise Inconclusive("GenDotCodec printed %d class strings, expected %d" % (len(gen), sum(6 ** k for k in range(maxlen + 1))))
     nenum = len(gen)
     if not quick:
-        sim = run.generate("GenDotCodec", GEN_CFG % dict(maxlen=12, minemit=7), simulate={"num": 3400, "depth": 13})
+        sim = run.generate("GenDotCodec", GEN_CFG % dict(maxlen=12, minemit=7), simulate={"num": 1000, "depth": 13})
         seen = {tuple(g["cls"]) for g in gen}
         for g in sim:
             if tuple(g["cls"]) not in seen:
